@@ -7,7 +7,7 @@ import common
 def check(run, only=None):
     thorough = run.tier == "thorough"
     run.rule = ("runs of N goroutines (8 quick; 8, 16 and 64 thorough) x rounds of Execute/Parse calls on ONE environment (Twig with "
-                "auto-escaping, and core) over 8 templates of different content types (html, js, css, txt, inherited, embedding, "
+                "auto-escaping, and core) over 11 templates of different content types (html, js, css, txt, inherited, embedding, "
                 "importing, failing), each call with its own context map and writer, harness built with the race detector; "
                 "observed: every call's output and error against the same call made alone, and the race detector's reports; "
                 "non-trivial = every call of a run (calls of different content types overlap by construction: goroutines start "
